@@ -260,6 +260,16 @@ def handle : List String → String
         (rec.calls.any fun c => alive c && !regs.contains (region c))
       if badMulti then "SPEC key=region-order multi=" ++ mpS
       else
+      -- … and in every slice handed to a region client (first round and retry rounds): two calls of
+      -- one region appear in the order they have in the batch (theorem `same_region_order`)
+      let badQueue := q.any fun rec =>
+        let pos := fun c => batch.idxOf c
+        let rec go : List Nat → Bool
+          | [] => false
+          | c :: rest => rest.any (fun d => region d == region c && pos d < pos c) || go rest
+        go rec.calls
+      if valid && badQueue then "SPEC key=region-order-queue queue=" ++ qS
+      else
       match model with
       | .fault _ =>
         if okS = "hang" then "OK tags=blocked" else s!"DIFF model=fault impl={okS}"
